@@ -436,8 +436,36 @@ class Explorer:
                 g = strip_upd(self.deref_ptr(st, fr, args[0]))
                 if g[0] == 'guard':
                     ret, pure = ('cell', g[1]), True
+        # 1c. Rc::clone denotes the same object; a local Vec built by new/push with constant
+        #     indexing is tracked as a tuple of its elements
+        if ret is None:
+            if re.match(r'^<std::rc::Rc<T(, A)?> as std::clone::Clone>::clone$', name) and len(args) == 1:
+                ret, pure = self.deref_ptr(st, fr, args[0]), True
+                ev['rc_clone'] = True
+            elif re.match(r'^<std::rc::Rc<T(, A)?> as std::ops::Deref>::deref$', name) and len(args) == 1:
+                # pointer to the shared object an Rc value denotes
+                ret, pure = ('rcptr', self.deref_ptr(st, fr, args[0])), True
+            elif re.match(r'^std::vec::Vec::<T>::new$', name):
+                ret, pure = ('vec', ()), True
+            elif re.match(r'^std::vec::Vec::<T(, A)?>::push$', name) and len(args) == 2:
+                a0 = strip_upd(args[0])
+                if a0[0] == 'ref' and a0[1][0][0] == 'loc':
+                    cur = strip_upd(self.load(st, fr, a0[1]))
+                    if cur[0] == 'vec':
+                        self.store(st, a0[1], ('vec', cur[1] + (args[1],)))
+                        ret, pure = ('c', ('zst', '()')), True
+                        ev['vec_push'] = True
+            elif re.match(r'^<std::vec::Vec<T(, A)?> as std::ops::Index<I>>::index$', name) and len(args) == 2:
+                a0 = strip_upd(args[0])
+                if a0[0] == 'ref':
+                    cur = strip_upd(self.load(st, fr, a0[1]))
+                    i = args[1]
+                    if cur[0] == 'vec' and is_const(i) and isinstance(i[1], int) and 0 <= i[1] < len(cur[1]):
+                        ret, pure = ('refval', cur[1][i[1]]), True
+                    elif cur[0] == 'vec' and is_const(i):
+                        ev['vec_oob'] = (i[1], len(cur[1]))
         # 2. straight-line local callees are inlined
-        if ret is None and self.inline and fr.depth < INLINE_DEPTH and name not in self.opaque:
+        if ret is None and self.inline and fr.depth < INLINE_DEPTH and not any(name.startswith(o) for o in self.opaque):
             cb = self.facts.bodies.get(name)
             if cb is not None and is_straight_line(cb):
                 res = self.inline_call(st, fr, cb, args)
@@ -626,6 +654,11 @@ class Explorer:
                     ob = body.blocks[other_bb]
                     if ob['term']['k'] != 'unreachable' or ob['stmts']:
                         branches.append((('notin', tuple(vals)), other_bb))
+                excluded = set()
+                for (vv, cc) in st.path.conds:
+                    if vv == v and cc[0] == 'notin':
+                        excluded.update(cc[1])
+                branches = [(c, bb) for (c, bb) in branches if not (c[0] == 'eq' and c[1] in excluded)]
                 for i, (c, bb) in enumerate(branches):
                     s2 = st.fork() if i < len(branches) - 1 else st
                     for (vv, cc) in normalise_cond(v, c):
@@ -769,6 +802,8 @@ def noepoch(v):
         return ('call', v[1], tuple(noepoch(x) for x in v[2]))
     if k == 'c':
         return v
+    if k == 'ref':
+        return ('ref', (noepoch(v[1][0]), tuple(noepoch(e) if isinstance(e, tuple) else e for e in v[1][1])), v[2])
     return tuple(noepoch(x) if isinstance(x, tuple) else x for x in v)
 
 
@@ -838,6 +873,10 @@ def show(v, depth=0):
         return '(%s as %s)' % (show(v[2], d), v[3])
     if k == 'modified':
         return 'modified_by[%s](%s)' % (short(v[1]), show(v[4], d))
+    if k == 'rcptr':
+        return 'rc(%s)' % show(v[1], d)
+    if k == 'vec':
+        return 'vec[%s]' % ', '.join(show(x, d) for x in v[1])
     if k == 'guard':
         return 'guard(%s)' % show(v[1], d)
     if k == 'cell':
